@@ -363,6 +363,73 @@ def recheck(slot="rc0", shard=0, nshards=1, redo=False):
         print(m["id"], m["file"], m["line"], m["op"], "->", c.get("rc"), (c.get("what") or "")[:100], flush=True)
 
 
+def _func_at(cache, file, line):
+    if file not in cache:
+        tree = ast.parse(open(os.path.join(PKG, file)).read())
+        cache[file] = [(n.lineno, n.end_lineno, n.name) for n in ast.walk(tree) if isinstance(n, (ast.FunctionDef, ast.AsyncFunctionDef))]
+    best = None
+    for lo, hi, name in cache[file]:
+        if lo <= line <= hi and (best is None or lo > best[0]):
+            best = (lo, hi, name)
+    return best[2] if best else "<module>"
+
+
+def summary(path=None):
+    """seeded/sweep_summary.md: totals per property and the survivors grouped by enclosing function with the triage of tools/sweep_triage.json
+    ({"file:function": "verdict: reason"}; a survivor whose function has no entry is listed as UNTRIAGED)"""
+    index = json.load(open(os.path.join(OUT, "index.json")))
+    tri_p = os.path.join(VERIF, "tools", "sweep_triage.json")
+    triage = json.load(open(tri_p)) if os.path.exists(tri_p) else {}
+    cache, tab, groups = {}, {}, {}
+    for m in index:
+        p = os.path.join(OUT, m["id"] + ".json")
+        if not os.path.exists(p):
+            continue
+        r = json.load(open(p))
+        t = tab.setdefault(m["prop"], {"mutants": 0, "own": 0, "own_nfi": 0, "neighbour": 0, "tests": 0, "survivor": 0})
+        t["mutants"] += 1
+        if r["rc"] == 1:
+            t["own"] += 1
+            t["own_nfi"] += bool(r.get("nfi"))
+        elif r["rc"] == 0:
+            if not ("passed" in str(r.get("tests")) and "failed" not in str(r.get("tests"))):
+                t["tests"] += 1
+            elif any(c.get("rc") == 1 for c in (r.get("cross") or {}).values()):
+                t["neighbour"] += 1
+            else:
+                t["survivor"] += 1
+                key = f"{m['file']}:{_func_at(cache, m['file'], m['line'])}"
+                groups.setdefault(key, []).append(m)
+    lines = ["# First-order mutation sweep of the anchored code (tools/mutsweep.py)\n",
+             "A measuring instrument for the checks, not a check. Mutants: comparison / boolean / arithmetic operator flips, small constants, "
+             "`min/max/any/all/argmin/argmax`, dropped `not` / `abs` / unary minus, `continue|break -> pass`, guarded `return|raise -> pass`, on the "
+             "lines each property is anchored in (+- 25 lines, because the anchors carry the line numbers of the pinned commit), at most 40 per "
+             "property. Each mutant: the property's quick check in an isolated copy (tools/mutcheck.py); if missed, the repository's own test "
+             "suite; if that passes too, the quick checks of the OTHER properties anchored in the same file (`cross`). Survivors were re-run "
+             f"with the current harness (`recheck`, round {RECHECK_ROUND}).\n",
+             "| property | mutants | caught by its own check | (of which without a concrete input) | caught by a neighbouring property's check | killed only by the repository's tests | survivors |",
+             "|---|---|---|---|---|---|---|"]
+    tot = {k: 0 for k in ("mutants", "own", "own_nfi", "neighbour", "tests", "survivor")}
+    for pid in sorted(tab):
+        t = tab[pid]
+        for k in tot:
+            tot[k] += t[k]
+        lines.append(f"| {pid} | {t['mutants']} | {t['own']} | {t['own_nfi']} | {t['neighbour']} | {t['tests']} | {t['survivor']} |")
+    lines.append(f"| **all** | {tot['mutants']} | {tot['own']} | {tot['own_nfi']} | {tot['neighbour']} | {tot['tests']} | {tot['survivor']} |")
+    lines.append("\n\"Killed only by the repository's tests\" are mutants of code that the anchors' line ranges include but the property does not "
+                 "speak about (the tests pin it); they are listed in /tmp/mutsweep while the sweep's scratch directory exists.\n")
+    lines.append("## Survivors (no check and no test notices them), grouped by the function they sit in\n")
+    lines.append("| function | mutants (id: line, change) | triage |")
+    lines.append("|---|---|---|")
+    for key in sorted(groups):
+        ms = groups[key]
+        desc = "; ".join(f"{m['id']}: {m['line']} `{m['op']}`" for m in ms)
+        lines.append(f"| `{key}` | {desc} | {triage.get(key, 'UNTRIAGED')} |")
+    out = path or os.path.join(VERIF, "seeded", "sweep_summary.md")
+    open(out, "w").write("\n".join(lines) + "\n")
+    print(out, "survivor groups:", len(groups), "untriaged:", sum(1 for k in groups if k not in triage))
+
+
 if __name__ == "__main__":
     cmd = sys.argv[1]
     arg = lambda k, d: next((a.split("=", 1)[1] for a in sys.argv if a.startswith(k + "=")), d)
@@ -372,6 +439,8 @@ if __name__ == "__main__":
         cross(arg("--slot", "x0"), int(arg("--shard", "0")), int(arg("--of", "1")))
     elif cmd == "recheck":
         recheck(arg("--slot", "rc0"), int(arg("--shard", "0")), int(arg("--of", "1")), "--redo" in sys.argv)
+    elif cmd == "summary":
+        summary()
     elif cmd == "run":
         run(int(arg("--slots", "3")), [x for x in arg("--props", "").split(",") if x])
     else:
